@@ -4,6 +4,7 @@ import Tickit.Gen.Win
 import Tickit.Proof.WinDamage
 import Tickit.Proof.WinSteps
 import Tickit.Proof.WinGeom
+import Tickit.Proof.WinClose
 import Tickit.Props.C02
 /-
   C01 — The flushed screen equals the painter's-model composition of the window tree.
@@ -120,10 +121,13 @@ structure Good (content : Id → Int → Int → Cell) (st : St) : Prop where
   /-- the damage set satisfies the invariant of C05 (in particular its rectangles are pairwise disjoint) -/
   dinv : RectSet.Inv st.tree.root.damage
   onlyRoot : OnlyRoot st.tree
+  nodup : ChildrenNodup st.tree
+  noSelf : NoSelfParent st.tree
 
 inductive Op where
   | expose (id : Id) (e : Option Rect)
   | geom (id : Id) (rect : Rect)
+  | close (id : Id)
   | hide (id : Id)
   | show (id : Id)
   | flush
@@ -133,6 +137,7 @@ deriving Repr
     geometry follows the terminal. -/
 def Op.Ok : Op → Prop
   | .geom id _ => id ≠ 0
+  | .close id => id ≠ 0
   | .hide id => id ≠ 0
   | .show id => id ≠ 0
   | _ => True
@@ -144,6 +149,9 @@ def runOp (beh : Id → Rect → List DrawOp) (st : St) : Op → Res St
   | .geom id rect => do
     -- `tickit_window_set_geometry`, then the exposes the proviso demands: old and new area, in the parent
     let t ← setGeometryExposed st.tree st.fuel id rect
+    pure { st with tree := t }
+  | .close id => do
+    let t ← WinTree.close st.tree st.fuel id
     pure { st with tree := t }
   | .hide id => do
     let t ← WinTree.hide st.tree st.fuel id
@@ -169,6 +177,8 @@ theorem inv_step_expose (content : Id → Int → Int → Cell) (st : St) (id : 
   refine { wf := wfp_congr hw hg.wf
            rootWin := rootWin_congr hw hg.rootWin
            onlyRoot := onlyRoot_congr hw hg.onlyRoot
+           nodup := (struct_congr_wins hw hg.nodup hg.noSelf).1
+           noSelf := (struct_congr_wins hw hg.nodup hg.noSelf).2
            dinv := hdi hg.dinv
            root := rootOk_congr hw hg.root
            rootTop := by intro w hw'; rw [hw] at hw'; exact hg.rootTop w hw'
@@ -251,6 +261,8 @@ theorem inv_step_flush (beh : Id → Rect → List DrawOp) (content : Id → Int
     refine ⟨{ wf := wfp_congr hww hg.wf
               rootWin := rootWin_congr hww hg.rootWin
               onlyRoot := onlyRoot_congr hww hg.onlyRoot
+              nodup := (struct_congr_wins hww hg.nodup hg.noSelf).1
+              noSelf := (struct_congr_wins hww hg.nodup hg.noSelf).2
               dinv := by rw [hd']; exact (RectSet.inv_iff _).2 RectSet.invS_nil
               root := rootOk_congr hww hg.root
               rootTop := by intro w hw''; rw [hww] at hw''; exact hg.rootTop w hw''
@@ -287,6 +299,8 @@ theorem inv_step_vis (content : Id → Int → Int → Cell) (st : St) (id : Id)
            wf := hwf
            rootWin := hrw
            onlyRoot := onlyRoot_congr hwins (onlyRoot_sameBut hsb hg.onlyRoot)
+           nodup := (struct_congr_wins hwins (struct_sameBut hsb hg.nodup hg.noSelf).1 (struct_sameBut hsb hg.nodup hg.noSelf).2).1
+           noSelf := (struct_congr_wins hwins (struct_sameBut hsb hg.nodup hg.noSelf).1 (struct_sameBut hsb hg.nodup hg.noSelf).2).2
            dinv := hdi hg.dinv }
   · rcases hfl with hr | ⟨_, _, hq⟩
     · show t'.root.changes = []
@@ -326,6 +340,8 @@ theorem inv_step_geom (content : Id → Int → Int → Cell) (st : St) (id : Id
            wf := hwf
            rootWin := hrw
            onlyRoot := hor
+           nodup := (struct_congr_wins hwins (struct_sameButG hsb hg.nodup hg.noSelf).1 (struct_sameButG hsb hg.nodup hg.noSelf).2).1
+           noSelf := (struct_congr_wins hwins (struct_sameButG hsb hg.nodup hg.noSelf).1 (struct_sameButG hsb hg.nodup hg.noSelf).2).2
            dinv := hdi hg.dinv }
   · rcases hfl with hr | ⟨_, _, hq⟩
     · show t'.root.changes = []
@@ -345,9 +361,44 @@ theorem inv_step_geom (content : Id → Int → Int → Cell) (st : St) (id : Id
       exact hg.later (by show st.tree.root.damage ≠ []; rw [← hr]; exact hd)
     · intro _; exact h2
 
+/-- **`inv_step` for `tickit_window_close`** of any window but the root (nothing queued): the rectangle it exposes in
+    the parent covers every cell whose owner changes (`Proof/WinClose.lean`, through the locality lemma for a changed
+    child list). -/
+theorem inv_step_close (content : Id → Int → Int → Cell) (st : St) (id : Id) (t' : Tree) (hid : id ≠ 0)
+    (h : WinTree.close st.tree st.fuel id = .ok t') (hg : Good content st) :
+    Good content { st with tree := t' } := by
+  obtain ⟨hinv, hok, hro, hne, hdi, hpos, hq, hf⟩ :=
+    close_step content st.screen st.tree t' id h hid ⟨hg.wf, hg.nodup, hg.noSelf, hg.onlyRoot, hg.rootWin⟩ hg.root
+      hg.nonempty hg.pos hg.inv
+  obtain ⟨rw0, hrw0, _, _, hrp, _, _⟩ := hok.rootWin.ex
+  have hfl := hf (fun hd => ⟨hg.flagged hd, hg.later hd⟩)
+  exact { root := hro
+          rootTop := by intro w hw'; rw [hrw0] at hw'; cases hw'; exact hrp
+          pos := hpos
+          nonempty := hne
+          noQueue := hq hg.noQueue
+          flagged := fun hd => (hfl hd).1
+          later := fun hd => (hfl hd).2
+          inv := hinv
+          wf := hok.wf
+          rootWin := hok.rootWin
+          onlyRoot := hok.onlyRoot
+          nodup := hok.nodup
+          noSelf := hok.noSelf
+          dinv := hdi hg.dinv }
+
 theorem good_step (beh : Id → Rect → List DrawOp) (content : Id → Int → Int → Cell) (hrep : Repaints content beh)
     (st st' : St) (op : Op) (hop : op.Ok) (h : runOp beh st op = .ok st') (hg : Good content st) : Good content st' := by
   cases op with
+  | close id =>
+    simp only [runOp, bind, Bind.bind] at h
+    cases he : WinTree.close st.tree st.fuel id with
+    | ub w => rw [he] at h; cases h
+    | ok t' =>
+      rw [he] at h
+      simp only [pure, Pure.pure] at h
+      cases h
+      exact inv_step_close content st id t' hop he hg
   | geom id rect =>
     simp only [runOp, bind, Bind.bind] at h
     cases he : setGeometryExposed st.tree st.fuel id rect with
@@ -411,7 +462,7 @@ theorem good_run (beh : Id → Rect → List DrawOp) (content : Id → Int → I
 
 /-- **`C01_partial`**: on every tree (any shape, geometry, z-order, visibility), for every history of exposes of any
     rectangles of any windows, moves and resizes (each followed by the
-    exposes of the old and new area), hides and shows of any windows but the root, interleaved with flushes, and for all handlers that repaint what they are asked to: after
+    exposes of the old and new area), closes, hides and shows of any windows but the root, interleaved with flushes, and for all handlers that repaint what they are asked to: after
     every flush every owned terminal cell shows what its owner paints there. -/
 theorem C01_partial (beh : Id → Rect → List DrawOp) (content : Id → Int → Int → Cell) (hrep : Repaints content beh)
     (st0 : St) (hg : Good content st0) (ops : List Op) (hok : ∀ op ∈ ops, op.Ok) (st1 st2 : St) (shots : List Shot)
@@ -514,6 +565,18 @@ theorem good_init (content : Id → Int → Int → Cell) (lines cols : Int) (pe
              | zero => simp at hw'; subst hw'; cases hch
              | succ k => simp at hw'⟩
            rootWin := ⟨⟨_, hw, rfl, rfl, rfl, rfl, rfl⟩⟩
+           nodup := by
+             intro x w hw'
+             rw [hwins] at hw'
+             cases x with
+             | zero => simp at hw'; subst hw'; exact List.nodup_nil
+             | succ k => simp at hw'
+           noSelf := by
+             intro x w hw'
+             rw [hwins] at hw'
+             cases x with
+             | zero => simp at hw'; subst hw'; exact fun hx => by cases hx
+             | succ k => simp at hw'
            onlyRoot := by
              intro x w hw' _
              rw [hwins] at hw'
